@@ -6,6 +6,10 @@ import Req.C02.H1Msg
 import Req.C02.H1Full
 import Req.C02.H3Recv
 import Req.C02.H2Recv
+import Req.C02.H2Repair
+import Req.C02.TrailerMap
+import Req.C02.ReadLine
+import Req.C02.DataBuffer
 /-! Driver lanes of C02. -/
 namespace Req.Driver.L.C02
 open Req.Proto Req.C02
@@ -133,9 +137,10 @@ def h1ErrStr : H1Err → String
   | .badContentLength => "badContentLength" | .unsupportedTE => "unsupportedTE"
   | .body e => "body:" ++ ioErrStr (some e)
 
-/-- the fields the e2e lanes compare: `X-…` and `Content-Type` -/
+/-- the fields the e2e lanes compare: `X-…`, `Content-Type`, and (round 5) `Cache-Control` / `Pragma` -/
 def keepField (kv : Bytes × Bytes) : Bool :=
-  kv.1.take 2 == [88, 45] || kv.1 == [67, 111, 110, 116, 101, 110, 116, 45, 84, 121, 112, 101]
+  kv.1.take 2 == [88, 45] || kv.1 == [67, 111, 110, 116, 101, 110, 116, 45, 84, 121, 112, 101] ||
+    kv.1 == Req.H1.kCacheControl || kv.1 == Req.H1.kPragma
 
 def viewStr (v : View) : String :=
   "status=" ++ toString v.status ++ " hdr=" ++ kvStr (v.fields.filter keepField) ++
@@ -254,7 +259,8 @@ def laneH2Recv : List String → String
       match parseBool01 c with
       | none => "bad-op"
       | some isHead =>
-        let s := evs.foldl (fun s e => s.event e) (H2Stream.init isHead)
+        -- judged by the REPAIRED behaviour of finding C02-3 (no length accounting for 204/304)
+        let s := (evs.foldl (fun s e => s.event e) (H2Stream.init isHead)).lenRepair
         match s.res with
         | none => "error:" ++ h2ErrStr (match s.headErr with | some e => some e | none => some .connProto)
         | some res =>
@@ -315,6 +321,96 @@ def laneCall : List String → String
     | _, _, _, _, _, _, _ => "bad-op"
   | _ => "bad-op"
 
+
+/-! ### round 5: line reader for lines of any length, dataBuffer -/
+
+/-- `c02h1line <cap> <segs> <fin> <nlines>` → `lines=<hex,hex,…> err=<e> rem=<unread bytes>`:
+`textprotoReader.ReadLine()` called `nlines` times (stopping at the first error) on a
+`bufio.Reader` of size `cap` over the segmented connection — with or without the
+response-header dump (same answer by construction of the model). -/
+def laneH1Line : List String → String
+  | [cap, segs, fin, n] =>
+    match cap.toNat?, decodeList segs, parseNetEnd fin, n.toNat? with
+    | some cap, some segs, some fin, some n =>
+      let total := (segs.map List.length).sum
+      let (ls, e, b) := Bufio.readLinesAny n (total + 4) (Bufio.new cap { segs := segs, fin := fin })
+      "lines=" ++ encodeList ls ++ " err=" ++ ioErrStr e ++ " rem=" ++ toString b.rem.length
+    | _, _, _, _ => "bad-op"
+  | _ => "bad-op"
+
+/-- position-dependent test data: the byte at stream offset `i` -/
+def patByte (salt i : Nat) : UInt8 := UInt8.ofNat ((i * 131 + (i / 251) * 17 + salt) % 256)
+
+def patBytes (salt off n : Nat) : Bytes := (List.range n).map fun j => patByte salt (off + j)
+
+def hashBytes (bs : Bytes) : Nat := bs.foldl (fun h b => (h * 31 + b.toNat + 1) % 1000000007) 7
+
+/-- ops `w<n>` (write the next `n` bytes of the pattern stream) / `r<k>` (Read with len(p) = k) -/
+def parseDOps (salt : Nat) : Nat → List String → Option (List DOp)
+  | _, [] => some []
+  | off, s :: rest =>
+    if s.startsWith "w" then do
+      let n ← (s.drop 1).toNat?
+      let tl ← parseDOps salt (off + n) rest
+      pure (DOp.write (patBytes salt off n) :: tl)
+    else if s.startsWith "r" then do
+      let k ← (s.drop 1).toNat?
+      let tl ← parseDOps salt off rest
+      pure (DOp.read k :: tl)
+    else none
+
+def dobsStr : DObs → String
+  | .wrote => "w"
+  | .writeBroken => "w!"
+  | .got .errEmpty => "e"
+  | .got .broken => "r!"
+  | .got (.ok d) => toString d.length ++ ":" ++ toString (hashBytes d)
+
+/-- the run with the buffered size after every op -/
+def runSizes (alloc : Int → Bytes) : List DOp → DataBuffer → List String × DataBuffer
+  | [], b => ([], b)
+  | op :: ops, b =>
+    let (o, b1) := b.step alloc op
+    let (os, b2) := runSizes alloc ops b1
+    ((dobsStr o ++ "/" ++ toString b1.size) :: os, b2)
+
+/-- `c02databuf <expected> <salt> <geo 0|1> <ops>` → `obs=<o/size;…> geo=<chunk lengths|?>`:
+the real `dataBuffer` against `Req.C02.DataBuffer` with Go's size-class allocator, op by op
+(read results by length and content hash, `Len()` after every op, the chunk list's geometry at
+the end when the harness can see it). -/
+def laneDataBuf : List String → String
+  | [exp, salt, geo, ops] =>
+    match exp.toInt?, salt.toNat?, (if ops == "-" then some [] else parseDOps (salt.toNat?.getD 0) 0 (ops.splitOn ",")) with
+    | some exp, some _, some ops =>
+      let (os, b) := runSizes goAlloc ops (DataBuffer.new exp)
+      "obs=" ++ (if os.isEmpty then "-" else ";".intercalate os) ++ " geo=" ++
+        (if geo == "1" then encodeNatList (b.chunks.map List.length) else "?")
+    | _, _, _ => "bad-op"
+  | _ => "bad-op"
+
+/-- a `Response.Trailer` map with its nil-valued keys: `hex(k)=hex(v)|hex(v)` / `hex(k)=nil`,
+sorted by key -/
+def tmapStr (m : Req.H1.HeaderMap) : String :=
+  if m.isEmpty then "-" else
+  let ents : List (Bytes × Bytes) := m.map fun (k, vs) =>
+    (k, (if vs.isEmpty then "nil" else "|".intercalate (vs.map encodeHex)).toUTF8.toList)
+  ",".intercalate ((sortKV ents).map fun (k, v) => encodeHex k ++ "=" ++ toStr v)
+
+/-- `c02trailermap <proto 1|2|3> <announced keys> <got 0|1> <received fields>` → the map:
+HTTP/1.1 and HTTP/2 merge the received fields into the announced keys, HTTP/3 replaces the map
+when a trailer section arrived (`got`).  Keys are canonicalised as the readers do. -/
+def laneTrailerMap : List String → String
+  | [proto, decl, got, recv] =>
+    match decodeList decl, decodeFields recv with
+    | some decl, some recv =>
+      let decl := decl.map Req.Ascii.canonicalMIMEHeaderKey
+      let recv := recv.map fun (k, v) => (Req.Ascii.canonicalMIMEHeaderKey k, v)
+      if proto == "1" || proto == "2" then tmapStr (trailerMapMerged decl recv)
+      else if proto == "3" then tmapStr (trailerMapH3 decl (if got == "1" then some recv else none))
+      else "bad-op"
+    | _, _ => "bad-op"
+  | _ => "bad-op"
+
 def lanes : List (String × (List String → String)) := [
   ("c02call", laneCall),
   ("c02ops", laneOps),
@@ -322,7 +418,10 @@ def lanes : List (String × (List String → String)) := [
   ("c02h3recv", laneH3Recv),
   ("c02h1msg", laneH1Msg),
   ("c02h1full", laneH1Full),
-  ("c02h1body", laneH1Body)
+  ("c02h1body", laneH1Body),
+  ("c02h1line", laneH1Line),
+  ("c02databuf", laneDataBuf),
+  ("c02trailermap", laneTrailerMap)
 ]
 
 end Req.Driver.L.C02
